@@ -389,6 +389,26 @@ fn job_lib(job: &Value) -> Result<Value, String> {
     Ok(out)
 }
 
+fn fn_json(f: &FnUpdate) -> Value {
+    match f {
+        FnUpdate::Const(b) => json!({"k":"const","v":b}),
+        FnUpdate::Var(v) => json!({"k":"var","id":v.to_index()}),
+        FnUpdate::Param(p, args) => json!({"k":"param","id":p.to_index(),"args":args.iter().map(fn_json).collect::<Vec<_>>()}),
+        FnUpdate::Not(a) => json!({"k":"not","a":fn_json(a)}),
+        FnUpdate::Binary(op, a, b) => json!({"k":"bin","op":format!("{op:?}"),"a":fn_json(a),"b":fn_json(b)}),
+    }
+}
+
+/// structure of a network as parsed by the real library (for the converter checks)
+fn job_netinfo(job: &Value) -> Result<Value, String> {
+    let bn = load_bn(job)?;
+    let vars: Vec<String> = bn.variables().map(|v| bn.get_variable_name(v).clone()).collect();
+    let regs: Vec<Vec<usize>> = bn.variables().map(|v| bn.regulators(v).into_iter().map(|r| r.to_index()).collect()).collect();
+    let fns: Vec<Value> = bn.variables().map(|v| bn.get_update_function(v).as_ref().map(fn_json).unwrap_or(Value::Null)).collect();
+    let params: Vec<Value> = bn.parameters().map(|p| json!({"name": bn.get_parameter(p).get_name(), "arity": bn.get_parameter(p).get_arity()})).collect();
+    Ok(json!({"vars": vars, "regulators": regs, "functions": fns, "parameters": params}))
+}
+
 fn main() {
     std::panic::set_hook(Box::new(|_| {}));
     let stdin = std::io::stdin();
@@ -400,6 +420,7 @@ fn main() {
             "mc" => job_mc(&job),
             "text" => job_text(&job),
             "lib" => job_lib(&job),
+            "netinfo" => job_netinfo(&job),
             other => Err(format!("unknown op {other}")),
         }));
         let v = match r { Ok(Ok(v)) => v, Ok(Err(e)) => json!({"fatal": e}), Err(p) => json!({"fatal_panic": panic_msg(p)}) };
